@@ -154,7 +154,8 @@ def brief(o):
 
 def replay(case):
     if case.get('wrapper'):
-        return [dict(f, case=case) for f in run_wrapper_history(case['data_len'], case['ops'])]
+        run = run_wrapper_nonblocking if case.get('nb') else run_wrapper_history
+        return [dict(f, case=case) for f in run(case['data_len'], case['ops'])]
     return [dict(f, case=ir.to_jsonable(case), obs=ir.to_jsonable(f.get('obs'))) for f in run_case(case)]
 
 
@@ -163,8 +164,25 @@ def big_inputs(d):
     k = d.pick([1, 1, 2, 3])
     delta = d.pick([-3, -2, -1, 0, 1, 2, 3, 17])
     target = BUF * k + delta
-    shape = d.pick(['big-octet-string', 'seqof-definite', 'seqof-indefinite', 'many-top-level', 'nested-definite', 'set-indefinite-strings'])
+    shape = d.pick(['big-octet-string', 'seqof-definite', 'seqof-indefinite', 'many-top-level', 'nested-definite', 'set-indefinite-strings',
+                    'eoo-at-boundary', 'eoo-at-boundary'])
     INT = ir.mk('INTEGER')
+    if shape == 'eoo-at-boundary':
+        # an end-of-octets marker that starts exactly at, just before or just after a multiple of the buffer size (a reader that
+        # looks ahead through a buffer sees only part of it), at top level or one level down
+        nested = d.pct(50)
+        T = ir.mk('SEQUENCE', comps=[ir.comp('a', ir.mk('OCTETSTRING')), ir.comp('b', INT)])
+        if nested:
+            T = ir.mk('SEQUENCE', comps=[ir.comp('in', T), ir.comp('z', INT)])
+        at = BUF * k + d.pick([-2, -1, -1, 0, 1])
+        fixed = 2 + 4 + 3 + (2 if nested else 0)            # headers before the marker, without the string contents
+        v = {'a': (d.bytes(16) * (at // 16 + 2))[:at - fixed], 'b': 5}
+        if nested:
+            v = {'in': v, 'z': 6}
+        enc = x690.ber(T, v, x690.Fixed(indef=True, chunk=0))
+        if enc[at:at + 2] != b'\x00\x00' or enc[at - 3:at] != b'\x02\x01\x05':
+            raise harness.HarnessError('end-of-octets marker not where it was meant to be')
+        return shape, T, enc, 'BER'
     if shape == 'big-octet-string':
         T = ir.mk('OCTETSTRING')
         hdr = 4
@@ -277,9 +295,64 @@ def run_wrapper_history(data_len, ops):
     return []
 
 
-def _wf(kind, msg, data_len, hist, sig=''):
+def run_wrapper_nonblocking(data_len, ops):
+    """The wrapper over a NON-BLOCKING raw source (reads may come back short, or None while nothing has arrived) against a
+    seekable non-blocking stream fed the same octets at the same moments. ops: [name, arg], name in feed / read / peek / mark /
+    seek / finish. -> list of failures (first divergence only)."""
+    data = pattern(data_len)
+    raw = streams.PipeFeed()
+    w = streaming.CachingStreamWrapper(raw)
+    m = streams.SeekableFeed()
+    fed = 0
+    mark = 0
+    hist = []
+    for name, arg in ops:
+        hist.append([name, arg])
+        try:
+            if name == 'feed':
+                chunk = data[fed:fed + arg]
+                fed += len(chunk)
+                raw.feed_bytes(chunk)
+                m.feed_bytes(chunk)
+                continue
+            if name == 'finish':
+                raw.finish()
+                m.finish()
+                continue
+            if m.tell() - mark > BUF // 2:
+                continue                       # stay clear of the cache trimming region (known finding F09)
+            if name == 'read':
+                got, want = w.read(arg), m.read(arg)
+                if got != want:
+                    return [_wf('nb-read', 'read(%s) returned %r, a seekable stream fed alike returns %r' % (arg, _b(got), _b(want)), data_len, hist, nb=True)]
+            elif name == 'peek':
+                got = w.peek(arg)
+                p = m.tell()
+                want = m.read(arg)
+                m.seek(p)
+                if (got or b'') != (want or b''):
+                    return [_wf('nb-peek', 'peek(%s) returned %r, model %r' % (arg, _b(got), _b(want)), data_len, hist, nb=True)]
+            elif name == 'mark':
+                w.markedPosition = w.tell()
+                mark = m.tell()
+            elif name == 'seek':
+                target = m.tell() - int((m.tell() - mark) * arg)
+                w.seek(target)
+                m.seek(target)
+            if w.tell() != m.tell():
+                return [_wf('nb-tell', 'after %s(%s): tell() %s, model %s' % (name, arg, w.tell(), m.tell()), data_len, hist, nb=True)]
+        except Exception as ex:
+            return [_wf('nb-raises', '%s(%s) raised %s' % (name, arg, harness.exc_sig(ex)), data_len, hist, harness.exc_sig(ex), nb=True)]
+    return []
+
+
+def _b(x):
+    return None if x is None else (bytes(x[:10]).hex() + ('..(%d)' % len(x) if len(x) > 10 else ''))
+
+
+def _wf(kind, msg, data_len, hist, sig='', nb=False):
     return {'sub': 'wrapper', 'kind': kind, 'sig': sig, 'msg': msg + ' | %d-octet stream, history %s' % (data_len, hist[-8:]),
-            'obs': None, 'case': {'wrapper': True, 'data_len': data_len, 'ops': hist}}
+            'obs': None, 'case': {'wrapper': True, 'nb': nb, 'data_len': data_len, 'ops': hist}}
 
 
 def run_wrapper_shard(desc, seed, tier, col):
@@ -296,23 +369,36 @@ def run_wrapper_shard(desc, seed, tier, col):
             self.data_len = 0
             self.failed = False
 
-        @initialize(n=st.sampled_from([0, 5, 300, BUF, BUF + 1, 2 * BUF + 77, 3 * BUF + 1, 40000]))
-        def setup(self, n):
+        @initialize(n=st.sampled_from([0, 5, 300, BUF, BUF + 1, 2 * BUF + 77, 3 * BUF + 1, 40000]), nb=st.booleans())
+        def setup(self, n, nb):
             self.data_len = n
+            self.nb = nb            # the raw source is non-blocking and is fed by the history itself
 
         def _do(self, name, arg):
             if self.failed:
                 return
             self.ops.append([name, arg])
-            fl = run_wrapper_history(self.data_len, self.ops)
+            fl = (run_wrapper_nonblocking if self.nb else run_wrapper_history)(self.data_len, self.ops)
             feats = ['ops=%d' % min(len(self.ops), 10)]
             names = [o[0] for o in self.ops]
             nontriv = 'mark' in names and 'seek' in names[names.index('mark'):]
-            col.case(repr((self.data_len, self.ops)).encode(), nontriv, ['wrapper-history'] + (['mark+seek'] if nontriv else []),
+            if self.nb:
+                nontriv = 'feed' in names and any(x in names[names.index('feed'):] for x in ('read', 'peek'))
+            col.case(repr((self.data_len, self.nb, self.ops)).encode(), nontriv, ['wrapper-history' + ('-nonblocking' if self.nb else '')] + (['mark+seek'] if 'mark' in names and 'seek' in names else []),
                      sample={'stream_octets': self.data_len, 'history': self.ops[-12:]})
             for f in fl:
                 self.failed = True
                 col.fail(f['sub'], f['kind'], f['msg'], f['case'], sig=f['sig'])
+
+        @rule(n=st.sampled_from([1, 1, 2, 3, 5, 8, 100]))
+        def feed(self, n):
+            if self.nb:
+                self._do('feed', n)
+
+        @rule()
+        def finish(self):
+            if self.nb:
+                self._do('finish', None)
 
         @rule(n=sizes)
         def read(self, n):
